@@ -104,6 +104,7 @@ def gen_script(rng, p, m, L, single, terminal):
     θ = p["θ"] if math.isfinite(p["θ"]) else 0.5
     e = [rng.choice([1, -1]) * rng.choice([1.0, 2.0, 0.5, 3.0, 4.0]) for _ in range(m)]
     script = []
+    after_small = False
     style = rng.choice(["mixed", "mixed", "shrink", "stagnate", "converging", "failing"])
     for k in range(L):
         c = rng.random()
@@ -141,6 +142,11 @@ def gen_script(rng, p, m, L, single, terminal):
                     v = rng.choice([1.0, 2.0])
                 ne.append(v)
             e = ne
+            if after_small and m and rng.random() < 0.7:
+                # back outside the dual tolerance right after an iteration inside it: one component dominates, the others are compared with
+                # the (small) errors of that iteration
+                e[rng.randrange(m)] *= rng.choice([1.5, 3.0, 6.0])
+        after_small = bool(small and m)
         err = list(e)
         if status == 4 and rng.random() < 0.5 or rng.random() < 0.03:
             has_err = False        # e.g. PANOC's early NotFinite return leaves the outputs untouched
